@@ -350,6 +350,8 @@ package decoder
 //@   props C20 C11 C06
 //@   requires d != nil && ctx != nil && bufOK(ctx.Buf, cursor) && ctx.Option != nil && ctx.Option.Path != nil
 //@   ensures err == nil ==> cursor <= c && c < len(old(ctx.Buf))
+// a successful evaluation consumes the whole value: the cursor returned is just behind the closing brace (or behind null)
+//@   ensures[C20] err == nil ==> cursor < c && (M(ptrOf(old(ctx.Buf)) + c - 1) == '}' || M(ptrOf(old(ctx.Buf)) + c - 1) == 'l')
 //@   ensures ctx.Buf == old(ctx.Buf) && ctx.Option == old(ctx.Option) && ctx.Option.Path == old(ctx.Option.Path)
 //@   ensures ctx.Option.Path.node == old(ctx.Option.Path.node)
 //@   assigns all
@@ -368,6 +370,8 @@ package decoder
 //@   props C20 C11 C06
 //@   requires d != nil && ctx != nil && bufOK(ctx.Buf, cursor) && ctx.Option != nil && ctx.Option.Path != nil && ctx.Option.Path.node != nil
 //@   ensures err == nil ==> cursor <= c && c < len(old(ctx.Buf))
+// a successful evaluation consumes the whole value: the cursor returned is just behind the closing bracket (or behind null)
+//@   ensures[C20] err == nil ==> cursor < c && (M(ptrOf(old(ctx.Buf)) + c - 1) == ']' || M(ptrOf(old(ctx.Buf)) + c - 1) == 'l')
 //@   ensures ctx.Buf == old(ctx.Buf) && ctx.Option == old(ctx.Option) && ctx.Option.Path == old(ctx.Option.Path)
 //@   ensures ctx.Option.Path.node == old(ctx.Option.Path.node)
 //@   assigns all
